@@ -307,11 +307,11 @@ def plan(tier, seed):
     for i in range(shards):
         specs.append({"mode": "direct", "seed": f"{seed}:C02:{i}", "stride": stride, "phase": i,
                       "nvals": 200 if tier == "quick" else 8192})
-    for i in range(4 if tier == "quick" else 16):
-        specs.append({"mode": "e2e", "seed": f"{seed}:C02:E:{i}", "n": 600 if tier == "quick" else 4000})
-    specs.append({"mode": "overlap", "seed": f"{seed}:C02:O", "n": 60 if tier == "quick" else 600})
-    for i in range(1 if tier == "quick" else 4):
-        specs.append({"mode": "sameobj", "seed": f"{seed}:C02:S{i or ''}", "n": 300 if tier == "quick" else 1500})
+    for i in range(4 if tier == "quick" else 32):
+        specs.append({"mode": "e2e", "seed": f"{seed}:C02:E:{i}", "n": 600 if tier == "quick" else 10000})
+    specs.append({"mode": "overlap", "seed": f"{seed}:C02:O", "n": 60 if tier == "quick" else 3000})
+    for i in range(1 if tier == "quick" else 16):
+        specs.append({"mode": "sameobj", "seed": f"{seed}:C02:S{i or ''}", "n": 300 if tier == "quick" else 3000})
     return specs
 
 
